@@ -40,24 +40,12 @@ let check_with (needs_lock : bool) (oracle : scase -> ev list -> bool) (fields :
    within the limit, each at most once and in order (nothing out of a skipped, truncated or malformed message,
    nothing twice): the texts seen by the parser are a subsequence of the texts sent *)
 let parse_budget (sc : scase) (il : ev list) : string option =
-  let tb t = int_of_byte t in
-  let sent = List.filter_map (function
-    | FMsg (t, body) when tb t = 81 -> (match take_cstr body with Some (q, _) -> Some q | None -> None)
-    | FMsg (t, body) when tb t = 80 ->
-        (match take_cstr body with
-         | Some (_, l1) -> (match take_cstr l1 with
-                            | Some (q, l2) -> (match l2 with _ :: _ :: _ -> Some q | _ -> None)
-                            | None -> None)
-         | None -> None)
-    | _ -> None) (client_frames sc) in
-  let seen = List.filter_map (function CbParse q -> Some q | _ -> None) il in
-  let rec subseq a b = match a, b with
-    | [], _ -> true
-    | _, [] -> false
-    | x :: a', y :: b' -> if x = y then subseq a' b' else subseq a b' in
-  if subseq seen sent then None
-  else Some (Printf.sprintf "the parse function was called with %d texts that are not, in order, query texts of complete Query/Parse messages within the limit (%d such messages were sent)"
-               (List.length seen) (List.length sent))
+  (* [oracle_parse_budget] is extracted from Coq (and proven of the model); the numbers are for the report only *)
+  if oracle_parse_budget sc il then None
+  else
+    let seen = List.length (List.filter (function CbParse _ -> true | _ -> false) il) in
+    let sent = List.length (List.filter (fun f -> query_of f <> None) (client_frames sc)) in
+    Some (Printf.sprintf "the parse function was called with %d texts that are not, in order, query texts of complete Query/Parse messages within the limit (%d such messages were sent)" seen sent)
 let with_budget (check : sexp list -> verdict * string option) (fields : sexp list) : verdict * string option =
   let (v, cross) = check fields in
   match v with
@@ -116,7 +104,7 @@ let check_C10 fields =
   if field_opt "tlsobs" fields <> None then check_C10_tls fields else
   (* lock-step cases: the per-message discipline; all cases: a startup packet within the limit is served *)
   check_with false (fun sc log -> if is_lock fields then oracle_C10 sc log else startup_served sc log) fields
-let check_C13 = check_with true (fun sc log -> oracle_C13 sc log && oracle_C13_turns sc log && oracle_C13_strict sc log && oracle_early_end sc log)
+let check_C13 = check_with true (fun sc log -> oracle_C13 sc log && oracle_C13_turns sc log && oracle_C13_strict sc log && oracle_early_end sc log && oracle_early_scan sc log)
 let check_C19 fields =
   (* lock-step cases are also judged by the per-message discipline (Terminate rule) *)
   check_with false (fun sc log -> oracle_C19 sc log && (not (is_lock fields) || oracle_turns sc log)) fields
